@@ -88,6 +88,8 @@ Definition nlook (tok : bool) (p : list N -> bool) : aexp := if tok then ALook (
 Definition n_hexint := 61.    (* tokenised reading only *)
 Definition n_otherint := 62.
 Definition n_notbytes := 63.
+Definition n_hashany := 64.
+Definition n_tag := 65.       (* the three "#" DIGIT alternatives of type2, under one name *)
 
 (* ... and so does a byte string: where a type or group entry starts with h or b64 immediately followed by a single
    quote (or h and a double quote, the documented leniency), that is the beginning of a byte string literal, not
@@ -139,10 +141,8 @@ Definition abnf8610_gen (tok : bool) : cfg :=
                    ASeqs [L "~"; S_; R n_typename; AOpt (R n_genericarg)];
                    ASeqs [L "&"; S_; L "("; S_; R n_group; S_; L ")"];
                    ASeqs [L "&"; S_; R n_groupname; AOpt (R n_genericarg)];
-                   ASeqs [L "#"; L "6"; AOpt (ASeqs [L "."; R n_headnumber]); L "("; S_; R n_type; S_; L ")"];
-                   ASeqs [L "#"; L "7"; AOpt (ASeqs [L "."; R n_headnumber])];
-                   ASeqs [L "#"; R n_DIGIT; AOpt (ASeqs [L "."; R n_uint])];
-                   ASeqs [L "#"; nd]]);          (* tokenised reading: "#6" is not "#" followed by "6" *)
+                   R n_tag;       (* the three "#" DIGIT alternatives, see n_tag below *)
+                   R n_hashany]);
   (* head-number = uint / ("<" type ">")                            RFC 9682 3.2 *)
   (n_headnumber, AAlts [R n_uint; ASeqs [L "<"; R n_type; L ">"]]);
   (* rangeop = "..." / ".." *)
@@ -241,6 +241,12 @@ Definition abnf8610_gen (tok : bool) : cfg :=
   (n_NONASCII, AAlts [ARng 160 55295; ARng 57344 1114109]);
   (* CRLF = %x0A / %x0D.0A *)
   (n_CRLF, AAlts [AChr 10; ASeqs [AChr 13; AChr 10]]);
+  (* "#" "6" ["." head-number] "(" S type S ")" / "#" "7" ["." head-number] / "#" DIGIT ["." uint] *)
+  (n_tag, AAlts [ASeqs [L "#"; L "6"; AOpt (ASeqs [L "."; R n_headnumber]); L "("; S_; R n_type; S_; L ")"];
+                 ASeqs [L "#"; L "7"; AOpt (ASeqs [L "."; R n_headnumber])];
+                 ASeqs [L "#"; R n_DIGIT; AOpt (ASeqs [L "."; R n_uint])]]);
+  (* "#" ; any - tokenised reading: "#6" is not "#" followed by "6" *)
+  (n_hashany, ASeqs [L "#"; nd]);
   (* (tokenised reading only) not the start of a byte string literal *)
   (n_notbytes, if tok then ALook (fun r => negb (bytes_prefix true r)) else AEps)
 ].
